@@ -243,6 +243,14 @@ def run_index(case):
         sig = {"mode": "label", "by": by}
         for name, f in L:
             _apply(f, lexc, vals, dims, labels, lidx, "%s lidx=%s" % (name, core.jsonable(lidx)), sig)
+        if nd >= 1 and all(dsc["k"] in ("list", "full") for dsc in lidx) and all(len(l) for l in labels):
+            # an Axes object as index (the axes of a template array, listed in ANOTHER order than the array's dimensions): matched by name
+            da = core.env.import_dimarray()
+            tmpl = da.Axes([da.Axis(core.label_array(dsc["v"]) if dsc["k"] == "list" and dsc["v"] else (core.label_array(labels[i_]) if dsc["k"] == "full" else core.label_array(labels[i_])[:0]), dims[i_])
+                            for i_, dsc in list(enumerate(lidx))[::-1]])
+            fA = (lambda: a.take(tmpl)) if by == "label" else (lambda: a.take(tmpl, indexing="label"))
+            _apply(fA, lexc, vals, dims, labels, [dsc if dsc["k"] == "list" else {"k": "list", "v": list(labels[i_])} for i_, dsc in enumerate(lidx)],
+                   "take(Axes object listing the dimensions in reverse order) lidx=%s" % core.jsonable(lidx), sig)
         if keepdims:
             f = (lambda: a.take(lt, keepdims=True)) if by == "label" else (lambda: a.take(lt, indexing="label", keepdims=True))
             _apply(f, lexc, vals, dims, labels, lidx, "take(keepdims) lidx=%s" % core.jsonable(lidx), sig, keepdims=True)
@@ -349,6 +357,14 @@ def _run_tol(case, spec, which, tol, q, tolv, dims, labels, vals, by):
     sig = {"mode": "tol", "by": by}
     for name, f in S:
         _apply(f, exc, vals, dims, labels, descs, "%s q=%r tol=%r labels=%r" % (name, q, tol, labels[which]), sig, tol=eff_tol)
+    if numeric and tol != "inf":
+        # the axis carries a (wider or narrower) default tolerance of its own: the tolerance GIVEN in the call is the one that decides
+        for own in (tolv * 4, tolv / 4.0):
+            b = core.build(spec)
+            b.axes[which].tol = own
+            for name, f in ((("take(t, tol=) on an axis with its own tol", lambda: b.take(idx, tol=tolv)), ("take({dim: i}, tol=) on an axis with its own tol", lambda: b.take({d: idx[which]}, tol=tolv)))
+                            if by == "label" else (("take(t, tol=, indexing=label) on an axis with its own tol", lambda: b.take(idx, tol=tolv, indexing="label")),)):
+                _apply(f, exc, vals, dims, labels, descs, "%s=%r q=%r tol=%r labels=%r" % (name, own, q, tol, labels[which]), sig, tol=eff_tol)
     cl = ["tol:miss" if exc is not None else "tol:hit", "tol:" + ("numeric" if numeric else "str-axis"), "tol:by-" + by]
     if numeric and exc is None:
         qs = q if isinstance(q, list) else [q]
